@@ -62,6 +62,7 @@ enum rx_state {
 	RX_ST_CTRL,
 	RX_ST_DATA,
 	RX_ST_ESCAPE,
+	RX_ST_OVERFLOW,
 };
 
 static struct {
@@ -254,7 +255,9 @@ int sercomm_drv_rx_char(uint8_t ch)
 		//cons_puts("sercomm_drv_rx_char() overflow!\n");
 		msgb_free(sercomm.rx.msg);
 		sercomm.rx.msg = sercomm_alloc_msgb(SERCOMM_RX_MSG_SIZE);
-		sercomm.rx.state = RX_ST_WAIT_START;
+		/* skip the rest of the over-long frame including its closing flag,
+		 * which must not be taken for the opening flag of the next frame */
+		sercomm.rx.state = (ch == HDLC_FLAG) ? RX_ST_WAIT_START : RX_ST_OVERFLOW;
 		return 0;
 	}
 
@@ -299,6 +302,10 @@ int sercomm_drv_rx_char(uint8_t ch)
 		*ptr = ch;
 		/* transition back to normal DATA state */
 		sercomm.rx.state = RX_ST_DATA;
+		break;
+	case RX_ST_OVERFLOW:
+		if (ch == HDLC_FLAG)
+			sercomm.rx.state = RX_ST_WAIT_START;
 		break;
 	}
 
